@@ -391,7 +391,10 @@ pub proof fn lemma_tree_reach<K, N, E>(r: Seq<Edge<K, N, E>>, root: Node<K, N, E
 // ---- orderings (C10) ----
 // the targets of r are exactly the keys reachable from the root (other than the root's own key)
 pub open spec fn covers_reach<K, N, E>(r: Seq<Edge<K, N, E>>, root: Node<K, N, E>, acc: spec_fn(Edge<K, N, E>) -> bool, adj: spec_fn(Node<K, N, E>) -> Seq<Edge<K, N, E>>) -> bool {
-    forall|k: K| (exists|i: int| 0 <= i < r.len() && (#[trigger] r[i]).1.k() == k) <==> (k != root.k() && #[trigger] reach(root, k, acc, adj))
+    // every target is reachable and is not the root ...
+    &&& forall|i: int| 0 <= i < r.len() ==> (#[trigger] r[i]).1.k() != root.k() && reach(root, r[i].1.k(), acc, adj)
+    // ... and everything reachable (other than the root) is a target
+    &&& forall|k: K| k != root.k() && #[trigger] reach(root, k, acc, adj) ==> exists|i: int| 0 <= i < r.len() && (#[trigger] r[i]).1.k() == k
 }
 
 // finishing-order edge list: existing accepted edges, one per target, each starting at the root
@@ -432,16 +435,13 @@ pub proof fn lemma_covers_reach<K, N, E>(vis: Set<K>, r: Seq<Edge<K, N, E>>, roo
     ensures covers_reach(r, root, acc, adj)
 {
     reveal(ext);
-    assert forall|k: K| (exists|i: int| 0 <= i < r.len() && (#[trigger] r[i]).1.k() == k) <==> (k != root.k() && #[trigger] reach(root, k, acc, adj)) by {
-        if exists|i: int| 0 <= i < r.len() && (#[trigger] r[i]).1.k() == k {
-            let i = choose|i: int| 0 <= i < r.len() && (#[trigger] r[i]).1.k() == k;
-            assert(reach(root, r[i].1.k(), acc, adj));
-            assert(!set![root.k()].contains(r[i].1.k()));
-        }
-        if k != root.k() && reach(root, k, acc, adj) {
-            if !vis.contains(k) { lemma_closed_unreachable(vis, root, acc, adj, k); }
-            assert(vis.contains(k));
-        }
+    assert forall|i: int| 0 <= i < r.len() implies (#[trigger] r[i]).1.k() != root.k() && reach(root, r[i].1.k(), acc, adj) by {
+        assert(reach(root, r[i].1.k(), acc, adj));
+        assert(!set![root.k()].contains(r[i].1.k()));
+    }
+    assert forall|k: K| k != root.k() && #[trigger] reach(root, k, acc, adj) implies exists|i: int| 0 <= i < r.len() && (#[trigger] r[i]).1.k() == k by {
+        if !vis.contains(k) { lemma_closed_unreachable(vis, root, acc, adj, k); }
+        assert(vis.contains(k));
     }
 }
 
@@ -490,4 +490,336 @@ pub proof fn lemma_ext_post_step<K, N, E>(v0: Set<K>, r0: Seq<Edge<K, N, E>>, v2
     assert forall|i: int| r0.len() <= i < r3.len() implies !v0.contains((#[trigger] r3[i]).1.k()) by {
         if i < r2.len() { assert(r3[i] == r2[i]); }
     }
+}
+
+// ---- the callback log (C07) ----
+pub open spec fn tgts<K, N, E>(r: Seq<Edge<K, N, E>>) -> Seq<Node<K, N, E>> { r.map_values(|e: Edge<K, N, E>| e.1) }
+
+// all edges leaving the listed nodes, as a multiset (a node listed twice counts twice)
+pub open spec fn nodes_ms<K, N, E>(ns: Seq<Node<K, N, E>>, adj: spec_fn(Node<K, N, E>) -> Seq<Edge<K, N, E>>) -> Multiset<Edge<K, N, E>>
+    decreases ns.len()
+{
+    if ns.len() == 0 { Multiset::empty() } else { nodes_ms(ns.drop_last(), adj).add(adj(ns.last()).to_multiset()) }
+}
+
+pub proof fn lemma_nodes_ms_push<K, N, E>(ns: Seq<Node<K, N, E>>, n: Node<K, N, E>, adj: spec_fn(Node<K, N, E>) -> Seq<Edge<K, N, E>>)
+    ensures nodes_ms(ns.push(n), adj) == nodes_ms(ns, adj).add(adj(n).to_multiset())
+{
+    assert(ns.push(n).drop_last() =~= ns);
+    assert(ns.push(n).last() == n);
+}
+
+pub proof fn lemma_nodes_ms_concat<K, N, E>(a: Seq<Node<K, N, E>>, b: Seq<Node<K, N, E>>, adj: spec_fn(Node<K, N, E>) -> Seq<Edge<K, N, E>>)
+    ensures nodes_ms(a + b, adj) == nodes_ms(a, adj).add(nodes_ms(b, adj))
+    decreases b.len()
+{
+    if b.len() == 0 {
+        assert(a + b =~= a);
+        assert(nodes_ms(a, adj).add(Multiset::<Edge<K, N, E>>::empty()) =~= nodes_ms(a, adj));
+    } else {
+        assert((a + b).drop_last() =~= a + b.drop_last());
+        assert((a + b).last() == b.last());
+        lemma_nodes_ms_concat(a, b.drop_last(), adj);
+        assert(nodes_ms(a, adj).add(nodes_ms(b.drop_last(), adj)).add(adj(b.last()).to_multiset())
+            =~= nodes_ms(a, adj).add(nodes_ms(b.drop_last(), adj).add(adj(b.last()).to_multiset())));
+    }
+}
+
+pub proof fn lemma_take_ms_step<T>(s: Seq<T>, i: int)
+    requires 0 <= i < s.len()
+    ensures s.take(i + 1).to_multiset() == s.take(i).to_multiset().insert(s[i])
+{
+    broadcast use vstd::seq_lib::group_to_multiset_ensures;
+    assert(s.take(i + 1) =~= s.take(i).push(s[i]));
+}
+
+pub proof fn lemma_log_push<T>(log: Seq<T>, x: T)
+    ensures log.push(x).to_multiset() == log.to_multiset().insert(x)
+{
+    broadcast use vstd::seq_lib::group_to_multiset_ensures;
+}
+
+// C07, first sentence: between log0 and log1 the closure was called exactly once for every edge leaving a
+// node that is the root or reachable from it (through accepted edges), and for no other edge
+pub open spec fn calls_exactly<K, N, E>(log0: Seq<Edge<K, N, E>>, log1: Seq<Edge<K, N, E>>, root: Node<K, N, E>, acc: spec_fn(Edge<K, N, E>) -> bool, adj: spec_fn(Node<K, N, E>) -> Seq<Edge<K, N, E>>) -> bool {
+    exists|exp: Seq<Node<K, N, E>>| expands_exactly(exp, root, acc, adj) && log1.to_multiset() == log0.to_multiset().add(nodes_ms(exp, adj))
+}
+// every node that is the root or reachable from it occurs exactly once in exp, no other node occurs
+pub open spec fn expands_exactly<K, N, E>(exp: Seq<Node<K, N, E>>, root: Node<K, N, E>, acc: spec_fn(Edge<K, N, E>) -> bool, adj: spec_fn(Node<K, N, E>) -> Seq<Edge<K, N, E>>) -> bool {
+    forall|n: Node<K, N, E>| #[trigger] exp.to_multiset().count(n) == (if universe::<K, N, E>().contains(n) && reach0(root, n.k(), acc, adj) { 1nat } else { 0nat })
+}
+pub proof fn lemma_reachable_exactly<K, N, E>(exp: Seq<Node<K, N, E>>, root: Node<K, N, E>, acc: spec_fn(Edge<K, N, E>) -> bool, adj: spec_fn(Node<K, N, E>) -> Seq<Edge<K, N, E>>)
+    requires expands_reachable(exp, root, acc, adj)
+    ensures expands_exactly(exp, root, acc, adj)
+{
+    broadcast use vstd::seq_lib::group_to_multiset_ensures;
+    exp.lemma_multiset_has_no_duplicates();
+    assert forall|n: Node<K, N, E>| #[trigger] exp.to_multiset().count(n) == (if universe::<K, N, E>().contains(n) && reach0(root, n.k(), acc, adj) { 1nat } else { 0nat }) by {
+        exp.to_multiset_ensures();
+        assert(exp.contains(n) <==> exp.to_multiset().count(n) > 0);
+        assert(exp.contains(n) <==> (universe::<K, N, E>().contains(n) && reach0(root, n.k(), acc, adj)));
+        if exp.contains(n) { assert(exp.to_multiset().contains(n)); assert(exp.to_multiset().count(n) == 1); } else { assert(exp.to_multiset().count(n) == 0); }
+    }
+}
+// the statement depends on the multiset of expanded nodes only
+pub proof fn lemma_exactly_perm<K, N, E>(a: Seq<Node<K, N, E>>, b: Seq<Node<K, N, E>>, root: Node<K, N, E>, acc: spec_fn(Edge<K, N, E>) -> bool, adj: spec_fn(Node<K, N, E>) -> Seq<Edge<K, N, E>>)
+    requires expands_exactly(a, root, acc, adj), forall|n: Node<K, N, E>| #[trigger] b.to_multiset().count(n) == a.to_multiset().count(n)
+    ensures expands_exactly(b, root, acc, adj)
+{
+    assert forall|n: Node<K, N, E>| #[trigger] b.to_multiset().count(n) == (if universe::<K, N, E>().contains(n) && reach0(root, n.k(), acc, adj) { 1nat } else { 0nat }) by {
+        assert(b.to_multiset().count(n) == a.to_multiset().count(n));
+    }
+}
+pub open spec fn expands_reachable<K, N, E>(exp: Seq<Node<K, N, E>>, root: Node<K, N, E>, acc: spec_fn(Edge<K, N, E>) -> bool, adj: spec_fn(Node<K, N, E>) -> Seq<Edge<K, N, E>>) -> bool {
+    &&& exp.no_duplicates()
+    &&& forall|n: Node<K, N, E>| #[trigger] exp.contains(n) ==> universe::<K, N, E>().contains(n) && reach0(root, n.k(), acc, adj)
+    &&& forall|n: Node<K, N, E>| #[trigger] universe::<K, N, E>().contains(n) && reach0(root, n.k(), acc, adj) ==> exp.contains(n)
+}
+
+// the root followed by the targets of a complete search tree is such a list
+pub proof fn lemma_expands_tree<K, N, E>(r: Seq<Edge<K, N, E>>, root: Node<K, N, E>, acc: spec_fn(Edge<K, N, E>) -> bool, adj: spec_fn(Node<K, N, E>) -> Seq<Edge<K, N, E>>)
+    requires graph_ok(adj), universe::<K, N, E>().contains(root), covers_reach(r, root, acc, adj), distinct_targets(r),
+        forall|i: int| 0 <= i < r.len() ==> universe::<K, N, E>().contains((#[trigger] r[i]).1),
+    ensures expands_reachable(seq![root] + tgts(r), root, acc, adj), expands_exactly(seq![root] + tgts(r), root, acc, adj)
+{
+    lemma_expands_tree0(r, root, acc, adj);
+    lemma_reachable_exactly(seq![root] + tgts(r), root, acc, adj);
+}
+pub proof fn lemma_expands_tree0<K, N, E>(r: Seq<Edge<K, N, E>>, root: Node<K, N, E>, acc: spec_fn(Edge<K, N, E>) -> bool, adj: spec_fn(Node<K, N, E>) -> Seq<Edge<K, N, E>>)
+    requires graph_ok(adj), universe::<K, N, E>().contains(root), covers_reach(r, root, acc, adj), distinct_targets(r),
+        forall|i: int| 0 <= i < r.len() ==> universe::<K, N, E>().contains((#[trigger] r[i]).1),
+    ensures expands_reachable(seq![root] + tgts(r), root, acc, adj)
+{
+    let exp = seq![root] + tgts(r);
+    assert forall|i: int, j: int| 0 <= i < exp.len() && 0 <= j < exp.len() && i != j implies exp[i] != exp[j] by {
+        if i > 0 && j > 0 {
+            assert(exp[i] == r[i - 1].1 && exp[j] == r[j - 1].1);
+            if i < j { assert(r[i - 1].1.k() != r[j - 1].1.k()); } else { assert(r[j - 1].1.k() != r[i - 1].1.k()); }
+        } else {
+            let m = if i > 0 { i } else { j };
+            assert(exp[m] == r[m - 1].1);
+            assert(r[m - 1].1.k() != root.k());
+        }
+    }
+    assert forall|n: Node<K, N, E>| (#[trigger] exp.contains(n) ==> universe::<K, N, E>().contains(n) && reach0(root, n.k(), acc, adj))
+        && (#[trigger] universe::<K, N, E>().contains(n) && reach0(root, n.k(), acc, adj) ==> exp.contains(n)) by {
+        if exp.contains(n) {
+            let i = choose|i: int| 0 <= i < exp.len() && exp[i] == n;
+            if i > 0 {
+                assert(n == r[i - 1].1);
+                assert(r[i - 1].1.k() != root.k() && reach(root, r[i - 1].1.k(), acc, adj));
+            }
+        }
+        if universe::<K, N, E>().contains(n) && reach0(root, n.k(), acc, adj) {
+            if n.k() == root.k() { lemma_keys(n, root); assert(exp[0] == n); }
+            else {
+                assert(reach(root, n.k(), acc, adj));
+                let x = choose|x: int| 0 <= x < r.len() && (#[trigger] r[x]).1.k() == n.k();
+                lemma_keys(n, r[x].1);
+                assert(exp[x + 1] == n);
+            }
+        }
+    }
+}
+
+pub proof fn lemma_take0_ms<T>(s: Seq<T>)
+    ensures s.take(0).to_multiset() == Multiset::<T>::empty()
+{
+    broadcast use vstd::seq_lib::group_to_multiset_ensures;
+    assert(s.take(0) =~= Seq::<T>::empty());
+    assert(Seq::<T>::empty().to_multiset() =~= Multiset::<T>::empty());
+}
+
+// bookkeeping of the searches that record no edges: `disc` lists the newly discovered nodes in order
+pub open spec fn disc_ok<K, N, E>(disc: Seq<Node<K, N, E>>, vis0: Set<K>, vis: Set<K>, root: Node<K, N, E>, acc: spec_fn(Edge<K, N, E>) -> bool, adj: spec_fn(Node<K, N, E>) -> Seq<Edge<K, N, E>>) -> bool {
+    &&& forall|k: K| vis.contains(k) <==> (vis0.contains(k) || exists|i: int| 0 <= i < disc.len() && (#[trigger] disc[i]).k() == k)
+    &&& forall|i: int, j: int| 0 <= i < j < disc.len() ==> (#[trigger] disc[i]).k() != (#[trigger] disc[j]).k()
+    &&& forall|i: int| 0 <= i < disc.len() ==> !vis0.contains((#[trigger] disc[i]).k()) && universe::<K, N, E>().contains(disc[i]) && reach0(root, disc[i].k(), acc, adj)
+}
+
+pub proof fn lemma_disc_push<K, N, E>(disc: Seq<Node<K, N, E>>, vis0: Set<K>, vis: Set<K>, root: Node<K, N, E>, acc: spec_fn(Edge<K, N, E>) -> bool, adj: spec_fn(Node<K, N, E>) -> Seq<Edge<K, N, E>>, v: Node<K, N, E>)
+    requires disc_ok(disc, vis0, vis, root, acc, adj), !vis.contains(v.k()), universe::<K, N, E>().contains(v), reach0(root, v.k(), acc, adj)
+    ensures disc_ok(disc.push(v), vis0, vis.insert(v.k()), root, acc, adj)
+{
+    let d2 = disc.push(v);
+    let vis2 = vis.insert(v.k());
+    assert forall|k: K| vis2.contains(k) <==> (vis0.contains(k) || exists|i: int| 0 <= i < d2.len() && (#[trigger] d2[i]).k() == k) by {
+        if vis2.contains(k) {
+            if k == v.k() { assert(d2[disc.len() as int].k() == k); }
+            else if !vis0.contains(k) { let i = choose|i: int| 0 <= i < disc.len() && (#[trigger] disc[i]).k() == k; assert(d2[i] == disc[i]); }
+        } else if exists|i: int| 0 <= i < d2.len() && (#[trigger] d2[i]).k() == k {
+            let i = choose|i: int| 0 <= i < d2.len() && (#[trigger] d2[i]).k() == k;
+            if i < disc.len() { assert(d2[i] == disc[i]); }
+        }
+    }
+    assert forall|i: int, j: int| 0 <= i < j < d2.len() implies (#[trigger] d2[i]).k() != (#[trigger] d2[j]).k() by {
+        if j < disc.len() { assert(d2[i] == disc[i] && d2[j] == disc[j]); } else { assert(d2[i] == disc[i]); assert(vis.contains(disc[i].k())); }
+    }
+    assert forall|i: int| 0 <= i < d2.len() implies !vis0.contains((#[trigger] d2[i]).k()) && universe::<K, N, E>().contains(d2[i]) && reach0(root, d2[i].k(), acc, adj) by {
+        if i < disc.len() { assert(d2[i] == disc[i]); }
+    }
+}
+
+// a completed search from [root] with only the root visited expanded exactly the reachable nodes
+pub proof fn lemma_expands_disc<K, N, E>(disc: Seq<Node<K, N, E>>, vis: Set<K>, root: Node<K, N, E>, acc: spec_fn(Edge<K, N, E>) -> bool, adj: spec_fn(Node<K, N, E>) -> Seq<Edge<K, N, E>>)
+    requires graph_ok(adj), universe::<K, N, E>().contains(root), disc_ok(disc, set![root.k()], vis, root, acc, adj), all_closed(vis, root, acc, adj)
+    ensures expands_reachable(seq![root] + disc, root, acc, adj), expands_exactly(seq![root] + disc, root, acc, adj)
+{
+    lemma_expands_disc0(disc, vis, root, acc, adj);
+    lemma_reachable_exactly(seq![root] + disc, root, acc, adj);
+}
+pub proof fn lemma_expands_disc0<K, N, E>(disc: Seq<Node<K, N, E>>, vis: Set<K>, root: Node<K, N, E>, acc: spec_fn(Edge<K, N, E>) -> bool, adj: spec_fn(Node<K, N, E>) -> Seq<Edge<K, N, E>>)
+    requires graph_ok(adj), universe::<K, N, E>().contains(root), disc_ok(disc, set![root.k()], vis, root, acc, adj), all_closed(vis, root, acc, adj)
+    ensures expands_reachable(seq![root] + disc, root, acc, adj)
+{
+    let exp = seq![root] + disc;
+    assert forall|i: int, j: int| 0 <= i < exp.len() && 0 <= j < exp.len() && i != j implies exp[i] != exp[j] by {
+        if i > 0 && j > 0 {
+            assert(exp[i] == disc[i - 1] && exp[j] == disc[j - 1]);
+            if i < j { assert(disc[i - 1].k() != disc[j - 1].k()); } else { assert(disc[j - 1].k() != disc[i - 1].k()); }
+        } else {
+            let m = if i > 0 { i } else { j };
+            assert(exp[m] == disc[m - 1]);
+            assert(!set![root.k()].contains(disc[m - 1].k()));
+        }
+    }
+    assert forall|n: Node<K, N, E>| (#[trigger] exp.contains(n) ==> universe::<K, N, E>().contains(n) && reach0(root, n.k(), acc, adj))
+        && (#[trigger] universe::<K, N, E>().contains(n) && reach0(root, n.k(), acc, adj) ==> exp.contains(n)) by {
+        if exp.contains(n) {
+            let i = choose|i: int| 0 <= i < exp.len() && exp[i] == n;
+            if i > 0 { assert(n == disc[i - 1]); }
+        }
+        if universe::<K, N, E>().contains(n) && reach0(root, n.k(), acc, adj) {
+            if n.k() == root.k() { lemma_keys(n, root); assert(exp[0] == n); }
+            else {
+                if !vis.contains(n.k()) { lemma_closed_unreachable(vis, root, acc, adj, n.k()); }
+                let x = choose|x: int| 0 <= x < disc.len() && (#[trigger] disc[x]).k() == n.k();
+                lemma_keys(n, disc[x]);
+                assert(exp[x + 1] == n);
+            }
+        }
+    }
+}
+
+pub proof fn lemma_nodes_ms_single<K, N, E>(n: Node<K, N, E>, adj: spec_fn(Node<K, N, E>) -> Seq<Edge<K, N, E>>)
+    ensures nodes_ms(seq![n], adj) == adj(n).to_multiset(), nodes_ms(Seq::<Node<K, N, E>>::empty(), adj) == Multiset::<Edge<K, N, E>>::empty()
+{
+    let s = seq![n];
+    let e = Seq::<Node<K, N, E>>::empty();
+    assert(s.drop_last() =~= e);
+    assert(s.last() == n);
+    assert(s.len() == 1);
+    assert(nodes_ms(e, adj) == Multiset::<Edge<K, N, E>>::empty());
+    assert(nodes_ms(s, adj) == nodes_ms(s.drop_last(), adj).add(adj(s.last()).to_multiset()));
+    assert(Multiset::<Edge<K, N, E>>::empty().add(adj(n).to_multiset()) =~= adj(n).to_multiset());
+}
+
+// the edges recorded after position a, given that the prefix of length b is r0.push(e)
+pub proof fn lemma_skip_after_push<K, N, E>(s: Seq<Edge<K, N, E>>, r0: Seq<Edge<K, N, E>>, e: Edge<K, N, E>, a: int)
+    requires 0 <= a <= r0.len(), r0.len() + 1 <= s.len(), s.take(r0.len() as int + 1) == r0.push(e)
+    ensures s.skip(a) == r0.skip(a) + (seq![e] + s.skip(r0.len() as int + 1)),
+        tgts(s.skip(a)) == tgts(r0.skip(a)) + (seq![e.1] + tgts(s.skip(r0.len() as int + 1))),
+{
+    let b: int = r0.len() as int + 1;
+    assert forall|i: int| 0 <= i < b implies s[i] == r0.push(e)[i] by { assert(s.take(b)[i] == s[i]); }
+    assert(s.skip(a) =~= r0.skip(a) + (seq![e] + s.skip(b)));
+    assert(tgts(s.skip(a)) =~= tgts(r0.skip(a)) + (seq![e.1] + tgts(s.skip(b))));
+}
+
+pub proof fn lemma_disc_concat<K, N, E>(a: Seq<Node<K, N, E>>, b: Seq<Node<K, N, E>>, v0: Set<K>, v1: Set<K>, v2: Set<K>, root: Node<K, N, E>, acc: spec_fn(Edge<K, N, E>) -> bool, adj: spec_fn(Node<K, N, E>) -> Seq<Edge<K, N, E>>)
+    requires disc_ok(a, v0, v1, root, acc, adj), disc_ok(b, v1, v2, root, acc, adj)
+    ensures disc_ok(a + b, v0, v2, root, acc, adj)
+{
+    let c = a + b;
+    assert forall|k: K| v2.contains(k) <==> (v0.contains(k) || exists|i: int| 0 <= i < c.len() && (#[trigger] c[i]).k() == k) by {
+        if v2.contains(k) {
+            if v1.contains(k) {
+                if !v0.contains(k) { let i = choose|i: int| 0 <= i < a.len() && (#[trigger] a[i]).k() == k; assert(c[i] == a[i]); }
+            } else {
+                let i = choose|i: int| 0 <= i < b.len() && (#[trigger] b[i]).k() == k; assert(c[a.len() + i] == b[i]);
+            }
+        } else if exists|i: int| 0 <= i < c.len() && (#[trigger] c[i]).k() == k {
+            let i = choose|i: int| 0 <= i < c.len() && (#[trigger] c[i]).k() == k;
+            if i < a.len() { assert(c[i] == a[i]); assert(v1.contains(k)); } else { assert(c[i] == b[i - a.len()]); }
+        }
+    }
+    assert forall|i: int, j: int| 0 <= i < j < c.len() implies (#[trigger] c[i]).k() != (#[trigger] c[j]).k() by {
+        if j < a.len() { assert(c[i] == a[i] && c[j] == a[j]); }
+        else if i >= a.len() { assert(c[i] == b[i - a.len()] && c[j] == b[j - a.len()]); }
+        else { assert(c[i] == a[i] && c[j] == b[j - a.len()]); assert(v1.contains(a[i].k())); assert(!v1.contains(b[j - a.len()].k())); }
+    }
+    assert forall|i: int| 0 <= i < c.len() implies !v0.contains((#[trigger] c[i]).k()) && universe::<K, N, E>().contains(c[i]) && reach0(root, c[i].k(), acc, adj) by {
+        if i < a.len() { assert(c[i] == a[i]); } else { assert(c[i] == b[i - a.len()]); assert(!v1.contains(b[i - a.len()].k())); }
+    }
+}
+
+pub proof fn lemma_disc_empty<K, N, E>(vis: Set<K>, root: Node<K, N, E>, acc: spec_fn(Edge<K, N, E>) -> bool, adj: spec_fn(Node<K, N, E>) -> Seq<Edge<K, N, E>>)
+    ensures disc_ok(Seq::<Node<K, N, E>>::empty(), vis, vis, root, acc, adj)
+{}
+
+// postorder step: result = r2.push(e) where r2 extends r0 by the edges the recursive call on e.1 recorded
+pub proof fn proof_post_log<K, N, E>(s: Seq<Edge<K, N, E>>, r0: Seq<Edge<K, N, E>>, r2: Seq<Edge<K, N, E>>, e: Edge<K, N, E>, a: int, adj: spec_fn(Node<K, N, E>) -> Seq<Edge<K, N, E>>)
+    requires 0 <= a <= r0.len() <= r2.len(), r2.take(r0.len() as int) == r0, s == r2.push(e)
+    ensures nodes_ms(tgts(s.skip(a)), adj) == nodes_ms(tgts(r0.skip(a)), adj).add(nodes_ms(seq![e.1] + tgts(r2.skip(r0.len() as int)), adj))
+{
+    let b = r0.len() as int;
+    let mid = tgts(r2.skip(b));
+    assert forall|i: int| 0 <= i < b implies r2[i] == r0[i] by { assert(r2.take(b)[i] == r2[i]); }
+    assert(tgts(s.skip(a)) =~= tgts(r0.skip(a)) + (mid + seq![e.1]));
+    lemma_nodes_ms_concat(tgts(r0.skip(a)), mid + seq![e.1], adj);
+    lemma_nodes_ms_concat(mid, seq![e.1], adj);
+    lemma_nodes_ms_concat(seq![e.1], mid, adj);
+    assert(nodes_ms(mid, adj).add(nodes_ms(seq![e.1], adj)) =~= nodes_ms(seq![e.1], adj).add(nodes_ms(mid, adj)));
+}
+
+// ---- the callback log for the priority queue: nodes are expanded in heap order, so the bookkeeping is
+// by counts: expanded + still pending == initially pending + newly recorded targets ----
+pub open spec fn heap_done<K, N, E, T>(done: Seq<Node<K, N, E>>, h0: Multiset<T>, h1: Multiset<T>, wrapf: spec_fn(Node<K, N, E>) -> T, tg: Seq<Node<K, N, E>>) -> bool {
+    forall|n: Node<K, N, E>| #[trigger] done.to_multiset().count(n) + h1.count(wrapf(n)) == h0.count(wrapf(n)) + tg.to_multiset().count(n)
+}
+pub open spec fn injective<K, N, E, T>(wrapf: spec_fn(Node<K, N, E>) -> T) -> bool {
+    forall|a: Node<K, N, E>, b: Node<K, N, E>| #[trigger] wrapf(a) == #[trigger] wrapf(b) ==> a == b
+}
+pub proof fn lemma_heap_done_pop<K, N, E, T>(done: Seq<Node<K, N, E>>, h0: Multiset<T>, hg: Multiset<T>, wrapf: spec_fn(Node<K, N, E>) -> T, tg: Seq<Node<K, N, E>>, node: Node<K, N, E>)
+    requires heap_done(done, h0, hg, wrapf, tg), hg.count(wrapf(node)) > 0, injective(wrapf)
+    ensures heap_done(done.push(node), h0, hg.remove(wrapf(node)), wrapf, tg)
+{
+    broadcast use vstd::seq_lib::group_to_multiset_ensures;
+    let h1 = hg.remove(wrapf(node));
+    assert forall|n: Node<K, N, E>| #[trigger] done.push(node).to_multiset().count(n) + h1.count(wrapf(n)) == h0.count(wrapf(n)) + tg.to_multiset().count(n) by {
+        assert(done.to_multiset().count(n) + hg.count(wrapf(n)) == h0.count(wrapf(n)) + tg.to_multiset().count(n));
+        assert(done.push(node).to_multiset() == done.to_multiset().insert(node));
+        if n == node { } else { assert(wrapf(n) != wrapf(node)); }
+    }
+}
+pub proof fn lemma_heap_done_push<K, N, E, T>(done: Seq<Node<K, N, E>>, h0: Multiset<T>, h: Multiset<T>, wrapf: spec_fn(Node<K, N, E>) -> T, tg: Seq<Node<K, N, E>>, v: Node<K, N, E>)
+    requires heap_done(done, h0, h, wrapf, tg), injective(wrapf)
+    ensures heap_done(done, h0, h.insert(wrapf(v)), wrapf, tg.push(v))
+{
+    broadcast use vstd::seq_lib::group_to_multiset_ensures;
+    let h1 = h.insert(wrapf(v));
+    assert forall|n: Node<K, N, E>| #[trigger] done.to_multiset().count(n) + h1.count(wrapf(n)) == h0.count(wrapf(n)) + tg.push(v).to_multiset().count(n) by {
+        assert(done.to_multiset().count(n) + h.count(wrapf(n)) == h0.count(wrapf(n)) + tg.to_multiset().count(n));
+        assert(tg.push(v).to_multiset() == tg.to_multiset().insert(v));
+        if n == v { } else { assert(wrapf(n) != wrapf(v)); }
+    }
+}
+// top level: the heap initially holds the root only and is empty at the end
+pub proof fn lemma_heap_done_exactly<K, N, E, T>(done: Seq<Node<K, N, E>>, h0: Multiset<T>, h1: Multiset<T>, wrapf: spec_fn(Node<K, N, E>) -> T, r: Seq<Edge<K, N, E>>, root: Node<K, N, E>, acc: spec_fn(Edge<K, N, E>) -> bool, adj: spec_fn(Node<K, N, E>) -> Seq<Edge<K, N, E>>)
+    requires heap_done(done, h0, h1, wrapf, tgts(r)), injective(wrapf), h0 == Multiset::<T>::empty().insert(wrapf(root)), h1.len() == 0,
+        expands_exactly(seq![root] + tgts(r), root, acc, adj),
+    ensures expands_exactly(done, root, acc, adj)
+{
+    broadcast use vstd::seq_lib::group_to_multiset_ensures;
+    let a = seq![root] + tgts(r);
+    vstd::seq_lib::lemma_multiset_commutative(seq![root], tgts(r));
+    assert(seq![root] =~= Seq::<Node<K, N, E>>::empty().push(root));
+    assert forall|n: Node<K, N, E>| #[trigger] done.to_multiset().count(n) == a.to_multiset().count(n) by {
+        assert(done.to_multiset().count(n) + h1.count(wrapf(n)) == h0.count(wrapf(n)) + tgts(r).to_multiset().count(n));
+        vstd::multiset::lemma_multiset_empty_len(h1);
+        assert(h1.count(wrapf(n)) == 0);
+        if n == root { } else { assert(wrapf(n) != wrapf(root)); }
+        assert(seq![root].to_multiset().count(n) == (if n == root { 1nat } else { 0nat }));
+    }
+    lemma_exactly_perm(a, done, root, acc, adj);
 }
